@@ -514,6 +514,51 @@ def session {D} (dc : Decoder D) (cfg : StreamCfg) :
                        leftover := r.rest, peerEof := w.eof }
     (idx, r) :: session dc cfg l' rest
 
+/-- how the caller leaves its `with client.session()` block -/
+inductive Leave where
+  /-- `start()` and `download()` completed -/
+  | downloaded
+  /-- only `start()` was called (the header was enough), the block is left normally -/
+  | headerOnly
+  /-- an exception leaves the block after `start()` -/
+  | raised
+  /-- `session.abort()` was called after `start()` -/
+  | aborted
+  deriving DecidableEq, Repr
+
+/-- `Session.start` without `download`: the header block is read, nothing of the body -/
+def decodeHead (σ : List Nat) (w : Wire) : Result :=
+  let c0 : Conn := { rest := w.bytes, eof := w.eof, sched := σ }
+  match readHead (w.bytes.length + 2) c0 [] 0 with
+  | .exc e nt c => mkResult w (.exc e) true nt c
+  | .stall nt c => mkResult w .stalled false nt c
+  | .ok block nt c =>
+    match parseResponse block with
+    | .error e => mkResult w (.exc e) true nt c
+    | .ok (st, f) => mkResult w (.ok st f []) false nt c
+
+/-- `Session.recycle()` / `__exit__`: the connection as the pool gets it back.  A session that is
+not done — header only, left by an exception, aborted — aborts first: it CLOSES every connection
+it holds BEFORE they are returned (the unread body would otherwise be taken for the next
+response). -/
+def linkAfter (idx : Nat) (lv : Leave) (r : Result) (w : Wire) : Link :=
+  match lv with
+  | .downloaded => { index := idx, alive := !r.closed && r.outcome != .stalled, leftover := r.rest, peerEof := w.eof }
+  | _ => { index := idx, alive := false, leftover := r.rest, peerEof := w.eof }
+
+/-- `session` with the way each session is left -/
+def sessionL {D} (dc : Decoder D) (cfg : StreamCfg) :
+    Link → List (ReqInfo × List Nat × Wire × Leave) → List (Nat × Result)
+  | _, [] => []
+  | l, (req, σ, w, lv) :: rest =>
+    let idx := if l.reuse then l.index else l.index + 1
+    let pre := if l.reuse then l.leftover else []
+    let w' : Wire := { w with bytes := pre ++ w.bytes }
+    let r := match lv with
+      | .downloaded => decode dc cfg req σ w'
+      | _ => decodeHead σ w'
+    (idx, r) :: sessionL dc cfg (linkAfter idx lv r w) rest
+
 /-! ## request side (C04) -/
 
 /-- `RawRequest.to_bytes()`: request line, fields (already serialised), blank line -/
